@@ -56,7 +56,8 @@ def cname(c):
 
 
 class FnAnalysis(ast.NodeVisitor):
-    def __init__(self, params, pkg_methods):
+    def __init__(self, params, pkg_methods, globs=None):
+        self.globs = globs or {}      # module globals of the function: process-wide state (caches, module-level containers)
         self.params = params          # parameter names (first is self)
         self.selfname = params[0] if params else None
         self.pkg_methods = pkg_methods
@@ -76,6 +77,8 @@ class FnAnalysis(ast.NodeVisitor):
                 return None if v == ("fresh",) else (v[0], list(v[1]))
             if e.id in self.params:
                 return ("Arg:" + e.id, [])
+            if isinstance(self.globs.get(e.id), (dict, list, set)):
+                return ("Arg:<module-level %s>" % e.id, [])       # process-wide mutable state
             return None
         if isinstance(e, ast.Attribute):
             p = self.path_of(e.value)
@@ -85,6 +88,8 @@ class FnAnalysis(ast.NodeVisitor):
             return None if p is None else (p[0], p[1] + ["[]"])
         if isinstance(e, ast.Call) and isinstance(e.func, ast.Name) and e.func.id == "cast" and len(e.args) == 2:
             return self.path_of(e.args[1])
+        if isinstance(e, ast.Call) and isinstance(e.func, ast.Name) and hasattr(self.globs.get(e.func.id), "cache_info"):
+            return ("Arg:<cached %s()>" % e.func.id, [])          # the result of a memoised function is shared process-wide
         return None
 
     def is_fresh_container(self, e):
@@ -298,7 +303,7 @@ def analyse_function(fn, pkg_methods):
     need(isinstance(tree, (ast.FunctionDef,)), "not a function")
     params = [a.arg for a in tree.args.posonlyargs + tree.args.args] + ([tree.args.vararg.arg] if tree.args.vararg else []) + \
              [a.arg for a in tree.args.kwonlyargs] + ([tree.args.kwarg.arg] if tree.args.kwarg else [])
-    an = FnAnalysis(params, pkg_methods)
+    an = FnAnalysis(params, pkg_methods, getattr(fn, "__globals__", None))
     for s in tree.body:
         an.visit(s)
     # nested function definitions (closures) are visited by generic_visit with the same tables
